@@ -8,13 +8,40 @@
    A hash is modelled by the value that is handed to Python's hash(): `*_hkey : option pyval`, None = hash() raises
    TypeError.  Python's hash of tuples / frozensets / str / int respects == ; that is the only assumption made about it
    (Props quantify over every function `h` with py_eq x y -> h x = h y).
-   Option values of the fragment of Model/Options.v contain no Feature objects, so the rewriting of
-   child_options[in_features] inside Feature.__hash__ is the identity there; the one case where it is not (a frozenset of
-   Feature objects) is modelled separately by `infeatures_hash_name`, with the set iteration order as a parameter. *)
+   Option values of the fragment of Model/Options.v contain no Feature objects.  The one place where Feature objects
+   inside options matter for identity is child_options[in_features] (a frozenset of Features, or one Feature), which
+   Feature.__hash__ rewrites before hashing; it is modelled by the separate field f_child_inf: the frozenset is given in
+   its ITERATION ORDER (a parameter), a Feature inside it by (name, class of all its other fields under ==).
+   Code as of /repo 17adca0: the frozenset is replaced by tuple(sorted(names)); a single Feature by its name.
+   `child_options.get(in_features)` looks into the group first and then into the CONTEXT of the child options, and the
+   replacement is written into the group of the (deep-copied) child options in both cases.
+   Not modelled: frozensets mixing Features with other elements; an empty frozenset (falsy: no rewrite, a plain value). *)
 From Coq Require Import List Bool ZArith String Arith.
 Import ListNotations.
 Require Import MV.Model.Options.
 Open Scope Z_scope.
+
+Definition inf_elem := (string * nat)%type.          (* a Feature: name, class of the remaining fields *)
+Inductive inf_val := InfSet (order : list inf_elem) | InfOne (e : inf_elem).
+Inductive inf_loc := InGroup | InContext.
+Definition elem_eqb (a b : inf_elem) : bool := String.eqb (fst a) (fst b) && Nat.eqb (snd a) (snd b).
+(* frozenset == frozenset; Feature == Feature; a Feature is never equal to a frozenset *)
+Definition inf_eq (x y : inf_val) : bool :=
+  match x, y with
+  | InfSet a, InfSet b => Nat.eqb (List.length a) (List.length b) && forallb (fun e => existsb (elem_eqb e) b) a
+  | InfOne a, InfOne b => elem_eqb a b
+  | _, _ => false
+  end.
+(* sorted(names) *)
+Fixpoint sinsert (x : string) (l : list string) : list string :=
+  match l with [] => [x] | y :: t => if String.leb x y then x :: l else y :: sinsert x t end.
+Definition ssort (l : list string) : list string := fold_right sinsert [] l.
+(* what __hash__ puts in place of the Feature-valued in_features *)
+Definition inf_rewrite (v : inf_val) : pyval :=
+  match v with
+  | InfSet order => VTuple (map VStr (ssort (map fst order)))
+  | InfOne e => VStr (fst e)
+  end.
 
 Record feat := {
   f_name : string;
@@ -22,7 +49,8 @@ Record feat := {
   f_domain : option string;
   f_cfw : option (list nat);           (* compute_frameworks: None or a set of framework classes *)
   f_dtype : option nat;                (* DataType member *)
-  f_child : option ostate              (* child_options *)
+  f_child : option ostate;             (* child_options, without a Feature-valued in_features entry *)
+  f_child_inf : option (inf_loc * inf_val)   (* child_options[in_features] when it holds Feature objects, and where *)
 }.
 
 Definition opt_val (A : Type) (f : A -> pyval) (o : option A) : pyval := match o with Some x => f x | None => VNone end.
@@ -38,10 +66,18 @@ Definition dom_eq (a b : option string) : option bool :=
   | _, _ => None
   end.
 
-Definition child_eq (a b : option ostate) : bool :=
+(* child_options == child_options: Options.__eq__ compares the GROUP dictionaries only, so a Feature-valued in_features
+   takes part when it sits in the group and is ignored when it sits in the context *)
+Definition group_inf (i : option (inf_loc * inf_val)) : option inf_val :=
+  match i with Some (InGroup, v) => Some v | _ => None end.
+Definition child_eq (a b : option ostate) (ia ib : option (inf_loc * inf_val)) : bool :=
   match a, b with
   | None, None => true
-  | Some x, Some y => opt_eq x y
+  | Some x, Some y => opt_eq x y && match group_inf ia, group_inf ib with
+                                    | None, None => true
+                                    | Some u, Some v => inf_eq u v
+                                    | _, _ => false
+                                    end
   | _, _ => false
   end.
 
@@ -55,20 +91,22 @@ Definition feat_eq (a b : feat) : option bool :=
        | Some false => Some false
        | Some true => Some (py_eq (cfw_val (f_cfw a)) (cfw_val (f_cfw b))
                             && py_eq (dtype_val (f_dtype a)) (dtype_val (f_dtype b))
-                            && child_eq (f_child a) (f_child b))
+                            && child_eq (f_child a) (f_child b) (f_child_inf a) (f_child_inf b))
        end.
+
+(* the group dictionary of the copy of child_options that is hashed: a Feature-valued in_features found in the group OR in
+   the context is written into the group in its rewritten form *)
+Definition child_hash_group (c : ostate) (i : option (inf_loc * inf_val)) : dict :=
+  match i with Some (_, v) => og c ++ [(k_in_features, inf_rewrite v)] | None => og c end.
 
 (* hash((name, options, domain, frozenset(cfw) | None, data_type, child_options)) ; context is not hashed *)
 Definition feat_hkey (a : feat) : option pyval :=
-  match opt_hash_key (f_opt a), (match f_child a with None => Some VNone | Some c => opt_hash_key c end) with
+  match opt_hash_key (f_opt a),
+        (match f_child a with None => Some VNone | Some c => hash_key (VDict (child_hash_group c (f_child_inf a))) end) with
   | Some ho, Some hc => Some (VTuple [VStr (f_name a); ho; opt_val VStr (f_domain a); cfw_val (f_cfw a);
                                        dtype_val (f_dtype a); hc])
   | _, _ => None
   end.
-
-(* child_options[in_features] = frozenset of >= 1 Feature objects: __hash__ replaces it by the name of the Feature that
-   the `for v in val` loop visits last.  `order` = iteration order of that frozenset. *)
-Definition infeatures_hash_name (order : list string) : pyval := VStr (last order ""%string).
 
 (* ---------- Index / Link ---------- *)
 Definition idx_eq (a b : list string) : bool := all2 String.eqb a b.
